@@ -614,10 +614,14 @@ def large_nk_records(rep, rng, thorough):
     sizes += [("inv", iv) for iv in ([37, 1], [64, 3], [101, 2], [55, 1], [89, 2]) + (([233, 3], [150, 1], [301, 2]) if thorough else ())]
     for kind, val in sizes:
         for _ in range(20):
-            nd = rng.choice([1, 2, 4])
-            a = tuple(rng.randint(-2, 2) for _ in range(3))
-            b = tuple(rng.randint(-2, 2) for _ in range(3))
-            c = tuple(rng.randint(-2, 2) for _ in range(3))
+            # the points are observed as rationals with denominators <= 2000 (U.rat_point): nd * (nk - 1) stays below that
+            if kind == "nk":
+                nd, span = rng.choice([d for d in (1, 2, 4) if d * (val - 1) <= 2000]), 2
+            else:
+                nd, span = (rng.choice([1, 2]) if val[0] <= 60 * val[1] else 1), 1      # segments of at most ~8 reciprocal units
+            a = tuple(rng.randint(-span, span) for _ in range(3))
+            b = tuple(rng.randint(-span, span) for _ in range(3))
+            c = tuple(rng.randint(-span, span) for _ in range(3))
             if a == b or b == c:
                 continue
             A = [list(x) for x in rng.choice(mats)]
